@@ -153,7 +153,50 @@ type FnV struct {
 	panicking string
 	subSeen map[string]bool
 	curHeld string
+	ownRecover bool
 	pendingOrder []string
+}
+
+func (fv *FnV) pkgShort() string {
+	if i := strings.Index(fv.name, "."); i > 0 {
+		return fv.name[:i]
+	}
+	return fv.name
+}
+
+type paramFact struct {
+	label, text, term string
+}
+
+// paramFacts: what callers owe for a parameter of Go type t holding value v: non-nil (unless declared nullable) and the type invariants of t.
+func (fv *FnV) paramFacts(st, old *State, name string, t types.Type, v string, k *Contract) []paramFact {
+	var out []paramFact
+	pt, isPtr := types.Unalias(t).Underlying().(*types.Pointer)
+	if !isPtr {
+		return nil
+	}
+	if k != nil && k.Nullable[name] {
+		return nil
+	}
+	out = append(out, paramFact{"nonnil." + name, name + " != nil", not(eq(v, "nil!ref"))})
+	tn := "*" + shortTypeName(pt.Elem())
+	for _, ti := range fv.g.typeInvs {
+		if tn != "*"+ti.Pkg+"."+strings.TrimPrefix(ti.Type, "*") {
+			continue
+		}
+		env := &CEnv{fv: fv, st: st, old: old, vars: map[string]CVal{"self": {T: v, S: sRef, Typ: t}}, bound: map[string]CVal{}, freePtrs: map[string]CVal{}}
+		for _, p := range fv.g.pkgs {
+			if p.Types.Name() == ti.Pkg {
+				env.pkg = p.Types
+			}
+		}
+		tm, err := env.evalBool(ti.Clause.Text)
+		if err != nil {
+			panic(unsupported("type invariant " + ti.Clause.Label + ": " + err.Error()))
+		}
+		out = append(out, paramFact{ti.Clause.Label + "." + name, ti.Clause.Text + " [self = " + name + "]", tm})
+	}
+	return out
 }
 
 // innermostLoop: the smallest loop containing the current block.
@@ -407,8 +450,62 @@ func (fv *FnV) snapshotLocals(st *State) []localSnap {
 			out = append(out, localSnap{k, sv.ptr.ref, sel(fv.heapGet(st, k), sv.ptr.ref)})
 		}
 	}
+	// captured variables that nobody assigns after their initialisation keep their value as well
+	for _, f := range fv.fn.FreeVars {
+		if !immutableCapture(fv.fn, f) {
+			continue
+		}
+		pt, ok := f.Type().Underlying().(*types.Pointer)
+		if !ok {
+			continue
+		}
+		if _, isS := isStruct(pt.Elem()); isS {
+			continue
+		}
+		k := fv.g.compCell(pt.Elem())
+		ref := fv.term(fv.vals[f])
+		out = append(out, localSnap{k, ref, sel(fv.heapGet(st, k), ref)})
+	}
 	sort.Slice(out, func(i, j int) bool { return out[i].key+out[i].ref < out[j].key+out[j].ref })
 	return out
+}
+
+// immutableCapture: the captured variable is a parameter or local of the parent that is assigned exactly once
+// (its initialisation) and by no closure.
+func immutableCapture(fn *ssa.Function, f *ssa.FreeVar) bool {
+	p := fn.Parent()
+	if p == nil {
+		return false
+	}
+	idx := -1
+	for i, x := range fn.FreeVars {
+		if x == f {
+			idx = i
+		}
+	}
+	for _, b := range p.Blocks {
+		for _, ins := range b.Instrs {
+			mc, ok := ins.(*ssa.MakeClosure)
+			if !ok || mc.Fn != fn || idx >= len(mc.Bindings) {
+				continue
+			}
+			al, ok := mc.Bindings[idx].(*ssa.Alloc)
+			if !ok {
+				return false
+			}
+			if !cellWrittenOnlyByParent(al) {
+				return false
+			}
+			stores := 0
+			for _, r := range *al.Referrers() {
+				if s, ok := r.(*ssa.Store); ok && s.Addr == al {
+					stores++
+				}
+			}
+			return stores <= 1
+		}
+	}
+	return false
 }
 
 func (fv *FnV) restoreLocals(st *State, snaps []localSnap) {
@@ -498,7 +595,9 @@ func (fv *FnV) run() (err error) {
 	}()
 	fn := fv.fn
 	fv.bornFn()
-	fv.hasRecover = fn.Recover != nil || closureRunsUnderParentRecover(fn)
+	_, isUnc := fv.g.uncontained[fn]
+	fv.hasRecover = !isUnc
+	fv.ownRecover = fnRecovers(fn)
 	fv.base0 = fv.newBase()
 	fv.now0 = fv.c.Fresh("now0", sInt)
 	st := &State{pc: "true", heap: map[string]string{}, base: fv.base0, now: fv.now0}
@@ -534,6 +633,27 @@ func (fv *FnV) run() (err error) {
 				if id, ok := d.Expr.(*ast.Ident); ok {
 					fv.localNames[id.Name] = append(fv.localNames[id.Name], d)
 				}
+			}
+		}
+	}
+	// parameters of internal functions: non-nil pointers and type invariants (checked at every call site inside the module)
+	if pkgName := fv.pkgShort(); fv.g.nonnilParams[pkgName] && !fv.g.apiRoots[fv.name] {
+		for _, p := range fn.Params {
+			for _, f := range fv.paramFacts(st, st, p.Name(), p.Type(), fv.term(fv.vals[p]), fv.k) {
+				fv.assume(st, f.term)
+			}
+		}
+	}
+	// package-level mutexes are free at every function entry: no function of the module holds one across a call
+	// that could lock it again (obligation L.no-relock at each call made while a mutex is held)
+	for key, gd := range fv.g.globalsDecl {
+		if gd.Kind != "mutex" || gd.Pkg != fv.pkgShort() {
+			continue
+		}
+		if sp := fv.g.spkgs[fv.pkgTypes().Path()]; sp != nil {
+			if gl, ok := sp.Members[gd.Name].(*ssa.Global); ok {
+				_ = key
+				fv.assume(st, eq(sel(fv.heapGet(st, "G|held"), fv.val(gl).v.T), "0"))
 			}
 		}
 	}
